@@ -344,8 +344,9 @@ def clause (fuel : Nat) (c : Ctx) : Clause → SR Status
       match withV with
       | some (.value lit) =>
         if (match q with
-            | [p] => (match p.variable with | some name => literalListVar name c.frames | none => false)
-            | _ => false) then .outside        -- literal list vs literal: not in the documented core
+            | p :: rest => (match p.variable with | some name => literalListVar name c.frames | none => false) &&
+                rest.all (fun x => match x with | .allIndices _ => true | _ => false)
+            | _ => false) then .outside        -- literal list (`%x`, `%x[*]`) vs literal: not in the documented core
         else
         if results.isEmpty then pure .skip
         else do
